@@ -175,7 +175,10 @@ def run_impl(cfg, ops):
                         if kind == "connack":
                             data = impl.connack(rc=(135 if (v5 and a != 0) else a), v5=v5)
                         elif kind == "publish":
-                            data = impl.publish_pkt(b"t", str(cc).encode(), qos=a, mid=b, v5=v5)
+                            # DUP is set on redeliveries of a pending id and on every other fresh packet:
+                            # the client's behaviour must not depend on it (the model ignores the flag)
+                            dupflag = a > 0 and ((b in c._in_messages) or cc % 2 == 1)
+                            data = impl.publish_pkt(b"t", str(cc).encode(), qos=a, mid=b, v5=v5, dup=dupflag)
                         else:
                             data = impl.ack(kind, a)
                             if v5 and (a + len(results)) % 3:
@@ -527,6 +530,25 @@ def standard_run(ctx, out, prop_keys, label, conforming=True):
         cases.append((cfg, ops))
     for i in range(0, len(cases), 2000):
         run_cases(cases[i:i + 2000], out, prop_keys, label)
+    # 4. histories that straddle the 65535 -> 1 wrap of the packet-id counter: 65530 offline QoS 0
+    #    publishes consume ids (no state, no traffic), then a random history follows
+    wraps = []
+    for _ in range(ctx.n(4, 40)):
+        cfg = dict(rng.choice(CFGS))
+        cfg["max"] = rng.choice([0, 2, 3, 20])
+        cfg["maxq"] = 0
+        skip = 65535 - rng.choice([1, 2, 3, 4, 5])
+        tail = [("rec", True), ("rx", "connack", 0, 0, 0, False)] + [("pub", rng.choice([1, 2])) for _ in range(rng.choice([4, 6, 8]))]
+        tail += resolve_acks(rng, cfg, random_ops(rng, rng.choice([10, 25]), cfg), conforming=conforming)
+        # the random tail was generated for a fresh client; make it start from a lost connection
+        wraps.append((cfg, [("pub", 0)] * skip + tail[:2] + tail[2:2 + 8] + [("lost",)] + tail[10:]))
+    fixed = {"clean": 0, "max": 20, "maxq": 0, "manual": False, "suppress": False}
+    ca = ("rx", "connack", 0, 0, 0, False)
+    wraps.append((fixed, [("pub", 0)] * 65532 + [("rec", True), ca] + [("pub", 1), ("pub", 2)] * 3
+                  + [("rx", "pubrec", 65534, 0, 0, False), ("lost",), ("rec", True), ca,
+                     ("rx", "puback", 65533, 0, 0, False), ("rx", "puback", 1, 0, 0, False)]))
+    run_cases(wraps, out, prop_keys, label)
+    out.stats["wrap_cases"] = len(wraps)
     out.exhaustive = False
 
 
